@@ -39,7 +39,14 @@ VARIES = (
     "metrics whose result type differs between groups or that return transposed/Fortran-ordered arrays; infinite user "
     "thresholds; counts held as np.int8(127)/np.uint8(255); callables that depend on the whole vector of evaluation points; "
     "2-D label/score arrays; long-double values that differ from a bound by less than double precision; models edited by the "
-    "caller between two identical calls; integer- and bool-typed sample values for interpolation")
+    "caller between two identical calls; integer- and bool-typed sample values for interpolation; arrays in non-native byte "
+    "order; one array object serving as both classes; disjoint class ranges either way round with thousands of scores; "
+    "64-bit integer scores at both ends of their range; float stacks mixing matrices 2^1200 apart; boolean masks against "
+    "integer classes; alias names of axes and thresholds everywhere; easy counts as narrow / unsigned NumPy integers; "
+    "hundreds of draws from sources with 1-3 scored samples per class; grouped samples rebuilt from their public arrays; "
+    "subnormal sample values; interval-valued metrics in showbias; adjacent 64-bit ids as labels; float32 / float16 label "
+    "columns; classes separated except for one pair exchanged by 1e-13; proportion subsamples as subjects; classes of 1e7 "
+    "to 1e12 samples for every band function")
 for pid, p in props.items():
     wt = f"{root}/{pid}"
     if not os.path.exists(wt):
@@ -52,7 +59,7 @@ for pid, p in props.items():
             prev.append(f"- {os.path.basename(d.rstrip('/'))}: {txt[:260]}")
     prevtxt = "\n".join(prev) if prev else "(none)"
     low = pid.lower()
-    txt = f"""You are helping to evaluate a verification effort for the Python library `score_analysis` (martinsbruveris/score-analysis: binary/multiclass classification metrics, threshold setting, EER, AUC, ROC curves, bootstrap confidence intervals). Your job is to act as a realistic source of *regressions*: produce TWO independent small changes to the library, each of which breaks the semantic property below while the library still imports and its existing test-suite still passes. This is an EIGHTH round. Seven earlier rounds produced the changes summarised at the end, and the verification effort caught all of them in the end; by now it varies {VARIES}. Find something it still does not look at. Take your time to read the code the property depends on line by line and look for an input condition *inside the stated domain* that none of the above would produce, an interaction between two functions, or a semantic slip (wrong one of two similar quantities, off-by-one in a rarely taken branch, a condition that is slightly too wide or too narrow) that only shows for a structured kind of input.
+    txt = f"""You are helping to evaluate a verification effort for the Python library `score_analysis` (martinsbruveris/score-analysis: binary/multiclass classification metrics, threshold setting, EER, AUC, ROC curves, bootstrap confidence intervals). Your job is to act as a realistic source of *regressions*: produce TWO independent small changes to the library, each of which breaks the semantic property below while the library still imports and its existing test-suite still passes. This is a NINTH round. Eight earlier rounds produced the changes summarised at the end, and the verification effort caught all of them in the end; by now it varies {VARIES}. Find something it still does not look at. Take your time to read the code the property depends on line by line and look for an input condition *inside the stated domain* that none of the above would produce, an interaction between two functions, or a semantic slip (wrong one of two similar quantities, off-by-one in a rarely taken branch, a condition that is slightly too wide or too narrow) that only shows for a structured kind of input.
 
 ## The property ({p['id']}: {p['title']})
 Statement: {p['statement']}
